@@ -99,6 +99,7 @@ def check_sequence(ctx, tokens, ue):
         if not (built[a] == built[b]) or not (built[b] == built[a]) or hash(built[a]) != hash(built[b]):
             ctx.violation("equal-token-sequences-compare-unequal", case, {"tokens": list(tokens), "routes": [a, b]})
             return
+    ctx.remember("pointer-parse-print", lambda: (str(JSONPointer(text, unicode_escape=ue)), repr(tuple(str(x) for x in JSONPointer(text, unicode_escape=ue).parts))), limit=150)
     p = built["parse"]
     # reparse of the printed form
     q = impl.call(lambda: JSONPointer(str(p), unicode_escape=ue))
